@@ -507,3 +507,26 @@ Proof.
     destruct (i <? 52) eqn:E; [apply andb_false_r|]. apply N.ltb_ge in E.
     now rewrite (proj1 (lt_pow2_bits _ _) H i E).
 Qed.
+
+(* ---- the named rank-group constants (ACES .. DEUCES) and ALL ------------------------------------------- *)
+Definition BC_GROUPS : list N :=
+  [BC_DEUCES; BC_TREYS; BC_FOURS; BC_FIVES; BC_SIXES; BC_SEVENS; BC_EIGHTS; BC_NINES; BC_TENS; BC_JACKS;
+   BC_QUEENS; BC_KINGS; BC_ACES].
+
+Lemma rank_groups_ok :
+  (forall r, r < 13 ->
+     nthN BC_GROUPS r 0 = bc_from_hand [layout r 3; layout r 2; layout r 1; layout r 0]) /\
+  fold_left N.lor BC_GROUPS 0 = BC_ALL /\
+  (forall r r', r < 13 -> r' < 13 -> r <> r' -> N.land (nthN BC_GROUPS r 0) (nthN BC_GROUPS r' 0) = 0).
+Proof.
+  split; [|split].
+  - intros r Hr.
+    pose proof (forallb_N_range (fun r => nthN BC_GROUPS r 0 =? bc_from_hand [layout r 3; layout r 2; layout r 1; layout r 0])
+                  13 ltac:(vm_compute; reflexivity) r Hr) as H.
+    apply N.eqb_eq in H. exact H.
+  - vm_compute. reflexivity.
+  - intros r r' Hr Hr' Hne.
+    pose proof (forallb_N_range2 (fun r r' => (r =? r') || (N.land (nthN BC_GROUPS r 0) (nthN BC_GROUPS r' 0) =? 0))
+                  13 13 ltac:(vm_compute; reflexivity) r r' Hr Hr') as H. cbv beta in H.
+    apply orb_true_iff in H. destruct H as [H|H]; [apply N.eqb_eq in H; contradiction | apply N.eqb_eq, H].
+Qed.
